@@ -42,7 +42,7 @@ def main():
         if rp is None:
             print('REPLAY no replay function')
             return 2
-        rep, what = rp(d['inputs'])
+        rep, what = rp(core.dec_bytes(d['inputs']))
         print('REPLAY ' + what)
         if rep:
             print('VIOLATION property=%s replay=%s' % (a.prop, a.replay))
